@@ -11,6 +11,7 @@ import (
 	"math/big"
 	"os"
 	"path/filepath"
+	"sort"
 	"strconv"
 	"strings"
 )
@@ -378,6 +379,36 @@ func genConsts() string {
 			fail("%s: first parameter of pollForNewRequests is no longer the polling context", rel)
 		}
 		fmt.Fprintf(&sb, "def agent_pollingCtxName : String := %s  -- %s: name of the polling context parameter\n", strconv.Quote(fd.Type.Params.List[0].Names[0].Name), rel)
+		// how the pieces are wired: the agent forwards through a Director-mode single-host ReverseProxy
+		// (Rewrite mode strips X-Forwarded-*/Forwarded before forwarding), and the stand-alone proxy serves
+		// the proxy handler itself (a wrapper such as MaxBytesHandler would also cap agent uploads, i.e. responses)
+		{
+			hp := mustFunc(f, rel, "", "hostProxy")
+			direct := false
+			ast.Inspect(hp, func(n ast.Node) bool {
+				if as, ok := n.(*ast.AssignStmt); ok && len(as.Lhs) == 1 && len(as.Rhs) == 1 && src(as.Lhs[0]) == "hostProxy" {
+					if c, ok := as.Rhs[0].(*ast.CallExpr); ok && src(c.Fun) == "httputil.NewSingleHostReverseProxy" {
+						direct = true
+					}
+				}
+				return true
+			})
+			if strings.Contains(src(hp), "Rewrite:") || strings.Contains(src(hp), ".Rewrite =") {
+				direct = false
+			}
+			fmt.Fprintf(&sb, "def agent_hostProxyIsDirectorMode : Bool := %v  -- %s hostProxy: built by httputil.NewSingleHostReverseProxy, no Rewrite hook\n", direct, rel)
+			srel := "server/server.go"
+			sf := parseFile(srel)
+			sm := mustFunc(sf, srel, "", "main")
+			served := ""
+			ast.Inspect(sm, func(n ast.Node) bool {
+				if c, ok := n.(*ast.CallExpr); ok && src(c.Fun) == "http.Serve" && len(c.Args) == 2 {
+					served = src(c.Args[1])
+				}
+				return true
+			})
+			fmt.Fprintf(&sb, "def server_servedHandler : String := %s  -- %s main: second argument of http.Serve\n", strconv.Quote(served), srel)
+		}
 		// flag defaults that the lifecycle model refers to
 		env := collectConsts(f)
 		for _, fl := range []struct{ v, lean string }{{"healthCheckUnhealthy", "agent_defaultUnhealthyThreshold"}, {"healthCheckFreq", "agent_defaultHealthCheckFreq"}} {
@@ -502,6 +533,44 @@ func genConsts() string {
 		rel = "app/cache/cache.go"
 		env = collectConsts(parseFile(rel))
 		emitInt("cache_cacheEntrySizeLimit", mustInt(env, "cacheEntrySizeLimit", rel), rel)
+		// which methods of the caching store are plain delegations to the backing store (authorisation and
+		// routing decisions must not be answered from memcache, which outlives re-registration and clean-up)
+		{
+			f := parseFile(rel)
+			var pure []string
+			for _, d := range f.Decls {
+				fd, ok := d.(*ast.FuncDecl)
+				if !ok || fd.Recv == nil || len(fd.Recv.List) != 1 || src(fd.Recv.List[0].Type) != "*cachingStore" || fd.Body == nil {
+					continue
+				}
+				if len(fd.Body.List) != 1 {
+					continue
+				}
+				r, ok := fd.Body.List[0].(*ast.ReturnStmt)
+				if !ok || len(r.Results) != 1 {
+					continue
+				}
+				c, ok := r.Results[0].(*ast.CallExpr)
+				if !ok || src(c.Fun) != "c.BackingStore."+fd.Name.Name {
+					continue
+				}
+				var params []string
+				for _, p := range fd.Type.Params.List {
+					for _, n := range p.Names {
+						params = append(params, n.Name)
+					}
+				}
+				var args []string
+				for _, a := range c.Args {
+					args = append(args, src(a))
+				}
+				if strings.Join(params, ",") == strings.Join(args, ",") {
+					pure = append(pure, strconv.Quote(fd.Name.Name))
+				}
+			}
+			sort.Strings(pure)
+			fmt.Fprintf(&sb, "def cache_pureDelegations : List String := [%s]  -- %s: methods of cachingStore whose body is `return c.BackingStore.<same>(<same args>)`\n", strings.Join(pure, ", "), rel)
+		}
 		// memcache key formats: both IDs must be quoted (self-delimiting), or distinct (backend, request) pairs can collide
 		{
 			f := parseFile(rel)
